@@ -679,7 +679,7 @@ def fuzz_campaign(ctx):
 
 def shard_main(ctx):
     from hypothesis import given
-    n = {"quick": 350, "thorough": 15000}[ctx.tier]
+    n = {"quick": 350, "thorough": 6000}[ctx.tier]
 
     @given(cases())
     def test(case):
